@@ -165,6 +165,17 @@ fn hostile_shapes(quick: bool) -> Vec<(String, String, Option<String>)> {
         s3.push_str("o0.zz <- 1;\n");
         v.push((format!("mixed-ring-{}-field-error", n), s3, None));
     }
+    // a small cycle inside a heap with very many unrelated objects, and a long chain next to a cycle
+    v.push((
+        "ring-in-big-heap-print".into(),
+        "let a = array(1, null);\na[0] <- a;\nlet i = 0;\nwhile i < 300000 do begin array(0, null); i <- i + 1 end;\nprint(\"built\\n\");\nprint(\"~\\n\", a);\nprint(\"after\\n\");\n".into(),
+        None,
+    ));
+    v.push((
+        "ring-behind-chain-print".into(),
+        "let ring = array(1, null);\nring[0] <- ring;\nlet c = ring;\nlet i = 0;\nwhile i < 500 do begin c <- array(1, c); i <- i + 1 end;\nprint(\"built\\n\");\nprint(\"~\\n\", c);\n".into(),
+        None,
+    ));
     // a value that contains itself through its parent chain (parent is an array holding the object)
     v.push((
         "parent-cycle-print".into(),
@@ -639,7 +650,7 @@ pub fn c16(ctx: &Ctx, rep: &mut Report) {
                 if i % 7 == 3 {
                     // allocation in a loop
                     if let AST::Top(ss) = &mut ast {
-                        if let Ok(AST::Top(extra)) = real::parse("let zi = 0; while zi < 6 do begin array(zi, zi); object begin let k = zi; function mm() -> 1; end; zi <- zi + 1 end;\n") {
+                        if let Ok(AST::Top(extra)) = real::parse("let zi = 0; while zi < 6 do begin array(zi, zi); array(0, zi); array(0, begin zi end); object begin end; object begin let k = zi; function mm() -> 1; end; zi <- zi + 1 end;\n") {
                             ss.extend(extra);
                         }
                     }
@@ -801,6 +812,8 @@ fn big_program(rng: &mut Rng, i: u64) -> Option<(AST, String)> {
         for l in 0..4 {
             s.push_str(&format!("    let inner{} = loc{} + {};\n", l, rng.below(nl), l));
         }
+        // the same names in several open scopes (shadowing), read and written from the inside
+        s.push_str(&format!("    let loc0 = loc0 + 1000; let loc1 = inner0; let a = b; begin let loc0 = loc1 * 2; let inner0 = loc0 + a; loc0 <- inner0; inner1 <- loc0 + loc{} end;\n", rng.below(nl)));
         s.push_str(&format!("    if inner0 > inner1 then inner2 else if inner1 > {} then inner3 else loc0\n  end\nend;\n", rng.range(0, 100)));
     }
     let fields = ["zeta", "alpha", "mid", "Beta", "_u", "k1", "k10", "k2", "omega", "a"];
@@ -830,6 +843,13 @@ pub fn c11(ctx: &Ctx, rep: &mut Report) {
                 if let Ok(a) = real::parse(&s) {
                     sources.push((format!("corpus:{}", p.display()), a, s));
                 }
+            }
+        }
+    }
+    if ctx.shard == 1 % ctx.nshards {
+        for (name, src) in stress_sources() {
+            if let Ok(a) = real::parse(&src) {
+                sources.push((format!("stress:{}", name), a, src));
             }
         }
     }
@@ -886,7 +906,10 @@ pub fn c11(ctx: &Ctx, rep: &mut Report) {
         let (bytes, out, ok) = match (stable, first) {
             (true, Some(x)) => x,
             _ => {
+                // still part of the cross-process / cross-build comparison: a program must be
+                // rejected (or not) in the same way everywhere
                 rep.skip("not-compilable-or-not-terminating");
+                rep.digests.push(format!("{}#{} => rejected-or-nonterminating", origin, hash_str(src) % 100000));
                 continue;
             }
         };
@@ -957,6 +980,82 @@ pub fn c11(ctx: &Ctx, rep: &mut Report) {
         }
         if rep.samples.len() < 2 && origin.starts_with("big") && src.len() < 6000 {
             rep.sample(json!({"origin": origin, "source_bytes": src.len(), "bytecode_bytes": bytes.len(), "digest": format!("{:016x}:{:016x}", hash_bytes(&bytes), hash_str(&out)), "source_head": cli::truncate(src, 500)}));
+        }
+    }
+}
+
+// ---------------------------------------------------------------------------------------------
+// helpers for the sanitizer runs of C10 (thorough tier)
+
+/// `fml verif-harness C10dump --work DIR`: writes a corpus of hostile and fault-injected programs
+/// as DIR/vg-*.fml for the driver to run under valgrind memcheck.
+pub fn c10_dump(ctx: &Ctx, rep: &mut Report) {
+    let mut n = 0;
+    for (name, src, _) in hostile_shapes(true) {
+        // keep valgrind runs short: skip the deliberately huge ones
+        if name.starts_with("recursion") || name.starts_with("method-recursion") || name.contains("big-heap") {
+            continue;
+        }
+        if std::fs::write(ctx.work.join(format!("vg-{:03}-{}.fml", n, name)), src).is_ok() {
+            n += 1;
+        }
+    }
+    for i in 0..40u64 {
+        let mut rng = ctx.rng("C10dump", i);
+        let mut ast = gen::well_behaved(&mut rng, gen::GenOpts::default());
+        let pos = gen::fault_positions(&ast);
+        if !pos.is_empty() && i % 2 == 0 {
+            let (l, p) = pos[rng.below(pos.len())];
+            gen::add_fault_helpers(&mut ast);
+            gen::insert_at(&mut ast, l, p, gen::fault_statement(gen::FAULT_CLASSES[(i as usize / 2) % gen::FAULT_CLASSES.len()], i as usize));
+        }
+        if let Ok(src) = printer::to_source(&ast) {
+            let o = refsem::run(&ast, default_limits());
+            if o.res == Res::Fuel {
+                continue;
+            }
+            if std::fs::write(ctx.work.join(format!("vg-{:03}-gen{}.fml", n, i)), src).is_ok() {
+                n += 1;
+            }
+        }
+    }
+    rep.evaluations = n;
+    rep.conclusive = n;
+}
+
+/// `fml verif-harness miri-smoke`: a small in-process workload meant to run under Miri
+/// (no subprocesses): parse, compile, serialize, load, interpret, AST (de)serialisation.
+pub fn miri_smoke(_ctx: &Ctx, rep: &mut Report) {
+    let programs = [
+        "let a = array(2, begin 1 end); let o = object extends a begin let x = 1; function m(y) -> this.x + y; end; print(\"~ ~ ~\\n\", a, o.m(2), o[1]);\n",
+        "function f(n) -> if n <= 0 then 0 else n + f(n - 1); let i = 0; while i < 3 do begin print(\"~,\", f(i)); i <- i + 1 end; print(\"\\n\");\n",
+        "let s = object begin let t = \"x\"; end;\n",
+        "print(\"~\\n\", 1 / 0);\n",
+    ];
+    for src in programs.iter() {
+        rep.evaluations += 1;
+        let ast = match real::parse(src) {
+            Ok(a) => a,
+            Err(_) => {
+                rep.count("rejected_by_parser", 1);
+                continue;
+            }
+        };
+        // AST (de)serialisation is left out: Miri stops in the pinned dependency itoa-0.4.7
+        // (`mem::uninitialized::<[u8; 40]>()`, reached from serde_json's integer formatting) before
+        // any FML code is judged; see DESIGN.md §10.
+        let out = refsem::run(&ast, default_limits());
+        let p = real::pipeline_from_ast(&ast, 100_000, true);
+        if let (true, Some(run)) = (out.judged(), p.run.as_ref()) {
+            rep.conclusive += 1;
+            if run.out != out.out || run.ok == out.failed() {
+                rep.violation("C10:miri-behaviour", format!("under Miri: expected {:?}, observed {:?}", out.out, run.out), json!({"check":"C10","src":src}));
+            }
+        }
+        if let Some(b) = &p.bytes {
+            if let Ok(loaded) = real::load(b) {
+                let _ = real::disassemble(&loaded);
+            }
         }
     }
 }
